@@ -16,7 +16,7 @@ import z3
 from pyvc import sym
 from pyvc.sym import Sym, sand, implies
 from pyvc.harness import Case
-from pyvc.symlist import SymList, StrCodec, LoopSpec, as_symlist
+from pyvc.symlist import SymList, Rope, StrCodec, LoopSpec
 from . import common  # noqa
 import solution_generation.optimize_from_sub_blocks as ofs
 
@@ -58,12 +58,13 @@ class ItemCodec(object):
         return ItemProxy(e)
 
 
-def prefix_eq(out, base, extra_arr, extra_from, count):
-    """z3: out = base ++ extra[extra_from : extra_from+count]"""
-    i = z3.Int('i!pe')
-    return z3.And(out.n == base.n + count,
-                  z3.ForAll([i], z3.Implies(z3.And(i >= 0, i < base.n), out.at(i) == base.at(i))),
-                  z3.ForAll([i], z3.Implies(z3.And(i >= 0, i < count), out.at(base.n + i) == z3.Select(extra_arr, extra_from + i))))
+def _segment_hints(it, k):
+    """instances, at the ghost iteration index, of the (universally quantified) precondition that relates the entries of each
+    sub-block to the items of the block: spares the solver an instantiation modulo arithmetic"""
+    if k is None:
+        return
+    for fact in it.cfg['seg_facts']:
+        it.path.assume(fact(sym._as_int_expr(k)))
 
 
 class _CopyLoop(LoopSpec):
@@ -75,29 +76,44 @@ class _CopyLoop(LoopSpec):
     def enter(self, it, fr):
         self.idx0 = sym._as_int_expr(fr.locals['instr_idx'])
         if isinstance(fr.locals['optimized_instructions'], list):
-            # the accumulator starts as a concrete (empty) list: from here on it is a list of symbolic length
-            fr.locals['optimized_instructions'] = as_symlist(fr.locals['optimized_instructions'], ItemCodec())
-        self.out0 = fr.locals['optimized_instructions'].clone()
+            # the accumulator starts as a concrete (empty) list: from here on it is a rope of slices of the lists it copies from
+            fr.locals['optimized_instructions'] = Rope(ItemCodec(), [(z3.K(z3.IntSort(), x.e), z3.IntVal(0), z3.IntVal(1))
+                                                                     for x in fr.locals['optimized_instructions']])
+        self.out0 = list(fr.locals['optimized_instructions'].segs)
+
+    def shape(self, fr, idx):
+        prev = fr.locals['previous_instructions']
+        return self.out0 + [(prev.arr, self.idx0, idx - self.idx0)]
 
     def havoc(self, it, fr, k):
         fr.locals['instr_idx'] = it.path.fresh_int('idx')
-        out = fr.locals['optimized_instructions']
-        fresh = SymList(out.codec, name='out')
-        out.arr, out.n = fresh.arr, fresh.n          # same object (aliasing kept), fresh contents
+        # the invariant determines the accumulator from instr_idx: out = out0 ++ prev[idx0:idx]
+        fr.locals['optimized_instructions'].segs = self.shape(fr, sym._as_int_expr(fr.locals['instr_idx']))
+        _segment_hints(it, k)
 
     def inv(self, it, fr, k):
         idx = sym._as_int_expr(fr.locals['instr_idx'])
         out = fr.locals['optimized_instructions']
         prev = fr.locals['previous_instructions']
         cnt = idx - self.idx0
-        c = [cnt >= 0, idx <= prev.n, prefix_eq(out, self.out0, prev.arr, self.idx0, cnt)]
+        c = [cnt >= 0, idx <= prev.n, out.equals(self.shape(fr, idx))]
         if k is not None:
             c.append(cnt == sym._as_int_expr(k))
         if self.kind == 'prefix':
             j = z3.Int('j!pre')
             first = fr.locals['sub_block_list'][0]
-            c.append(z3.ForAll([j], z3.Implies(z3.And(j >= self.idx0, j < idx), to_plain_fn(prev.at(j)) != first.at(z3.IntVal(0)))))
+            self.noprint = lambda t, idx=idx, prev=prev, first=first: z3.Implies(z3.And(t >= self.idx0, t < idx),
+                                                                                 to_plain_fn(prev.at(t)) != first.at(z3.IntVal(0)))
+            c.append(z3.ForAll([j], self.noprint(j)))
         return z3.And(*c)
+
+    def exit_hints(self, it, fr):
+        if self.kind != 'prefix':
+            return ()
+        idx = sym._as_int_expr(fr.locals['instr_idx'])
+        cfg = it.cfg
+        # instance of the precondition at the exit index, instance of the invariant at PRE
+        return (cfg['pre_noprint'](idx), self.noprint(cfg['P']))
 
 
 class _NoStructuralChange(LoopSpec):
@@ -118,6 +134,7 @@ class _SkipLoop(LoopSpec):
 
     def havoc(self, it, fr, k):
         fr.locals['instr_idx'] = it.path.fresh_int('idx')
+        _segment_hints(it, k)
 
     def inv(self, it, fr, k):
         idx = sym._as_int_expr(fr.locals['instr_idx'])
@@ -128,7 +145,7 @@ class RebuildUnbounded(Case):
     prop = 'C14'
     tier = 'P'
     functions = (ofs.rebuild_optimized_asm_block,)
-    native_cover = False
+    native_cover = True
     timeout_ms = 30000
     max_paths = 3000
     assumptions = ("the number of sub-blocks is enumerated (1..3); all lengths (prefix, sub-blocks, replacements, suffix) are symbolic",
@@ -143,11 +160,12 @@ class RebuildUnbounded(Case):
 
     def run(self, H):
         if not H.symbolic:
-            return
+            return self.run_concrete(H)
         n = self.nsub
-        prev = SymList(ItemCodec(), name='prev')
-        subs = [SymList(StrCodec(), name='S%d' % k) for k in range(n)]
-        P = z3.Int('PRE')
+        # the lengths are the named inputs of the case (a counter-model is replayed natively from them, see run_concrete)
+        prev = SymList(ItemCodec(), n=sym._as_int_expr(H.int('len_prev', 0)), name='prev')
+        subs = [SymList(StrCodec(), n=sym._as_int_expr(H.int('len_S%d' % k, 1)), name='S%d' % k) for k in range(n)]
+        P = sym._as_int_expr(H.int('PRE', 0))
         H.assume(z3.And(P >= 0, P <= prev.n))
         cons_len = []
         offs = []
@@ -161,15 +179,21 @@ class RebuildUnbounded(Case):
         H.assume(off <= prev.n)
         j = z3.Int('j!pc')
         # prefix items do not print as the first entry of the first sub-block
-        H.assume(z3.ForAll([j], z3.Implies(z3.And(j >= 0, j < P), to_plain_fn(prev.at(j)) != subs[0].at(z3.IntVal(0)))))
+        pre_noprint = lambda t: z3.Implies(z3.And(t >= 0, t < P), to_plain_fn(prev.at(t)) != subs[0].at(z3.IntVal(0)))
+        H.assume(z3.ForAll([j], pre_noprint(j)))
+        H.it.cfg = dict(pre_noprint=pre_noprint, P=P, seg_facts=())
         H.assume(z3.Implies(P < prev.n, to_plain_fn(prev.at(P)) == subs[0].at(z3.IntVal(0))))
+        seg_facts = []
         for k in range(n):
             shift = 0 if k == 0 else 1
-            H.assume(z3.ForAll([j], z3.Implies(z3.And(j >= 0, j < cons_len[k]),
-                                               z3.Contains(to_plain_fn(prev.at(offs[k] + j)), subs[k].at(j + shift)))))
+            fact = lambda t, k=k, shift=shift: z3.Implies(z3.And(t >= 0, t < cons_len[k]),
+                                                          z3.Contains(to_plain_fn(prev.at(offs[k] + t)), subs[k].at(t + shift)))
+            seg_facts.append(fact)
+            H.assume(z3.ForAll([j], fact(j)))
             if k > 0:
                 H.assume(z3.Contains(to_plain_fn(prev.at(offs[k] - 1)), subs[k].at(z3.IntVal(0))))
                 H.assume(cons_len[k - 1] >= 1)
+        H.it.cfg['seg_facts'] = seg_facts
         mapping = {}
         repl = []
         for k in range(n):
@@ -178,7 +202,7 @@ class RebuildUnbounded(Case):
                 mapping["b_%d" % k] = None
                 repl.append(None)
             elif c == 'list':
-                r = SymList(ItemCodec(), name='R%d' % k)
+                r = SymList(ItemCodec(), n=sym._as_int_expr(H.int('len_R%d' % k, 0)), name='R%d' % k)
                 mapping["b_%d" % k] = r
                 repl.append(r)
             else:
@@ -189,22 +213,77 @@ class RebuildUnbounded(Case):
         if not out.ok:
             return
         res = out.value.instructions
-        # expected result, built with the list algebra of the specification
-        exp = prev._slice(None, sym.wrap(P), None) if True else None
+        # expected result as a list of segments (source array, first index, count), stated pointwise
+        segs = [(prev.arr, z3.IntVal(0), P)]
         for k in range(n):
-            seg = prev._slice(sym.wrap(offs[k]), sym.wrap(offs[k] + cons_len[k]), None)
             if repl[k] is not None:
-                exp = exp + repl[k]
+                segs.append((repl[k].arr, z3.IntVal(0), repl[k].n))
                 if k < n - 1:
-                    exp.append(ItemProxy(prev.at(offs[k] + cons_len[k] - 1)))
+                    segs.append((prev.arr, offs[k] + cons_len[k] - 1, z3.IntVal(1)))
             else:
-                exp = exp + seg
-        exp = exp + prev._slice(sym.wrap(off), None, None)
-        H.check('result = prefix ++ (replacement | original segment)* ++ rest', Sym(res.same_as(exp)))
+                segs.append((prev.arr, offs[k], cons_len[k]))
+        segs.append((prev.arr, off, prev.n - off))
+        H.check('result = prefix ++ (replacement | original segment)* ++ rest', Sym(res.equals(segs)))
         H.check('input-block-untouched', Sym(block.instructions.same_as(prev)))
         if all(r is None for r in repl):
-            H.check('nothing-replaced=>identity', Sym(res.same_as(prev)))
+            H.check('nothing-replaced=>identity', Sym(res.equals([(prev.arr, z3.IntVal(0), prev.n)])))
+
+    def run_concrete(self, H):
+        """the same contract on concrete lists of the lengths of a counter-model: item t of the block prints as "PUSH <t>", the
+        sub-blocks carry exactly the printed names, replacements are fresh items"""
+        from .c14 import I, mk_block
+        n = self.nsub
+        n_prev = H.int('len_prev', 0)
+        lens = [H.int('len_S%d' % k, 1) for k in range(n)]
+        P = H.int('PRE', 0)
+        cons = [lens[k] if k == 0 else lens[k] - 1 for k in range(n)]
+        offs = []
+        off = P
+        for k in range(n):
+            offs.append(off)
+            off += cons[k]
+        H.assume(0 <= P <= n_prev and off <= n_prev and all(x >= 1 for x in lens) and all(cons[k - 1] >= 1 for k in range(1, n)))
+        if H.assume_failed:
+            return
+        items = [I("PUSH", hex(t)[2:], t) for t in range(n_prev)]
+        subs = []
+        for k in range(n):
+            names = [items[offs[k] + j].to_plain() for j in range(cons[k])]
+            if k > 0:
+                names = [items[offs[k] - 1].to_plain()] + names
+            subs.append(names)
+        mapping = {}
+        repl = []
+        for k in range(n):
+            c = H.choice('replacement%d' % k, ['absent', 'none', 'list'])
+            if c == 'none':
+                mapping["b_%d" % k] = None
+                repl.append(None)
+            elif c == 'list':
+                r = [I("POP", None, 1000 + 50 * k + j) for j in range(H.int('len_R%d' % k, 0))]
+                mapping["b_%d" % k] = r
+                repl.append(r)
+            else:
+                repl.append(None)
+        block = mk_block(items, "b")
+        out = H.call(ofs.rebuild_optimized_asm_block, block, [list(x) for x in subs], dict(mapping))
+        H.check('raises-nothing-on-a-well-formed-splitting', out.ok, info=repr(out.exc))
+        if not out.ok:
+            return
+        exp = items[:P]
+        for k in range(n):
+            if repl[k] is not None:
+                exp = exp + repl[k] + ([items[offs[k] + cons[k] - 1]] if k < n - 1 else [])
+            else:
+                exp = exp + items[offs[k]:offs[k] + cons[k]]
+        exp = exp + items[off:]
+        got = out.value.instructions
+        same = lambda a, b: len(a) == len(b) and all(x is y or (x == y and x.disasm == y.disasm) for x, y in zip(a, b))
+        H.check('result = prefix ++ (replacement | original segment)* ++ rest', same(got, exp))
+        H.check('input-block-untouched', same(block.instructions, items) and len(block.instructions) == n_prev)
+        if all(r is None for r in repl):
+            H.check('nothing-replaced=>identity', same(got, items))
 
 
 def cases(tier='quick'):
-    return [RebuildUnbounded(n) for n in ((1, 2) if tier == 'quick' else (1, 2, 3))], {}
+    return [RebuildUnbounded(n) for n in ((1, 2) if tier == "quick" else (1, 2, 3))], {}
